@@ -31,11 +31,15 @@ def run_govc(prop, tier, here, repo, env, binp, scratch, extra_props=None):
     for f in res.get("funcs") or []:
         if any(o["status"] in undec and (prop in (o.get("props") or [])) for o in f.get("obligations") or []):
             retry.append(f["func"] + ("/" + f["variant"] if f.get("variant") else ""))
-    if retry:
-        out2 = os.path.join(scratch, "govc_retry.json")
+    attempt = 0
+    res["retried"] = []
+    while retry and attempt < 2:
+        attempt += 1
+        out2 = os.path.join(scratch, "govc_retry%d.json" % attempt)
         rx = "^(" + "|".join(re.escape(k) for k in retry) + ")$"
-        cmd2 = [binp, "-repo", repo, "-only", rx, "-timeout", "40" if tier == "quick" else "120", "-out", out2,
-                "-scratch", os.path.join(scratch, "smt2"), "-replaydir", os.path.join(scratch, "replaytests")]
+        tmo = {("quick", 1): "40", ("quick", 2): "240", ("thorough", 1): "120", ("thorough", 2): "600"}[(tier if tier in ("quick", "thorough") else "quick", attempt)]
+        cmd2 = [binp, "-repo", repo, "-only", rx, "-timeout", tmo, "-out", out2, "-j", "16" if attempt == 1 else "6",
+                "-scratch", os.path.join(scratch, "smt%d" % (attempt + 1)), "-replaydir", os.path.join(scratch, "replaytests")]
         subprocess.run(cmd2, env=env, capture_output=True, text=True)
         res2 = load_json(out2, {})
         byk = {f["func"] + ("/" + f["variant"] if f.get("variant") else ""): f for f in res2.get("funcs") or []}
@@ -44,7 +48,11 @@ def run_govc(prop, tier, here, repo, env, binp, scratch, extra_props=None):
             k = f["func"] + ("/" + f["variant"] if f.get("variant") else "")
             funcs.append(byk.get(k, f))
         res["funcs"] = funcs
-        res["retried"] = retry
+        res["retried"] += retry
+        retry = []
+        for f in res.get("funcs") or []:
+            if any(o["status"] in undec and (prop in (o.get("props") or [])) for o in f.get("obligations") or []):
+                retry.append(f["func"] + ("/" + f["variant"] if f.get("variant") else ""))
     res["wall_s"] = time.time() - t0
     return res
 
